@@ -378,13 +378,16 @@ def run_check(prop, tier, vseed, nruns=None, workers=None, write_evidence=True, 
         for v in vs:
             seen.setdefault(v["signature"], (i, sc, v))
     reported, known_lines, exit_code = [], [], 0
+    extra_sigs = []
     for sig in sorted(seen):
         i, sc, v = seen[sig]
         ke = known_entry(prop, sig)
         if ke is not None:
             known_lines.append("KNOWN-FINDING: property=%s %s [%s]" % (prop, ke.get("what", ""), sig))
             continue
-        if len(reported) >= 6:
+        if len(reported) >= int(os.environ.get("VERIF_MAX_REPORT", "8")):
+            # beyond the cap: still a violation, reported with its un-minimised replay
+            extra_sigs.append((sig, write_replay(prop, tier, vseed, sc, v, None, 0), v))
             continue
         from_steps = len(sc["steps"]) if isinstance(sc.get("steps"), list) else None
         msc, nexec = minimise(mod, sc, sig)
@@ -404,6 +407,10 @@ def run_check(prop, tier, vseed, nruns=None, workers=None, write_evidence=True, 
         print("  violation clause=%s component=%s step=%s: %s" % (v["clause"], v["component"], v.get("step"), v["message"]))
         print("  signature=%s" % sig)
         print("VIOLATION property=%s replay=%s" % (prop, path))
+    for sig, path, v in extra_sigs:
+        print("  violation (not minimised; cap VERIF_MAX_REPORT reached) signature=%s" % sig)
+        print("VIOLATION property=%s replay=%s" % (prop, path))
+    reported += extra_sigs
     if reported:
         exit_code = 1
     elif harness_err:
